@@ -146,6 +146,7 @@ type expect struct {
 	Ehi   []int    `json:"ehi"`
 	Epre  []string `json:"epre"`
 	Free  bool     `json:"free"`
+	Pfx   bool     `json:"prefix"` // the expectation covers the first reports only (jstok impl); the rest is judged as free
 	Input []int    `json:"input"`
 	Plan  string   `json:"plan,omitempty"`
 }
@@ -198,7 +199,7 @@ func run(w *tr.Writer, input []byte, e *expect) (toks int) {
 	back := make([]byte, n, n+1)
 	copy(back, input)
 	in := parse.NewInputBytes(back)
-	open := tr.E{"lang": "js.lex", "len": n, "input": e.Input, "free": e.Free, "ek": e.Ek, "elo": e.Elo, "ehi": e.Ehi, "epre": e.Epre}
+	open := tr.E{"lang": "js.lex", "len": n, "input": e.Input, "free": e.Free, "prefix": e.Pfx, "ek": e.Ek, "elo": e.Elo, "ehi": e.Ehi, "epre": e.Epre}
 	if e.Ek == nil {
 		open["ek"], open["elo"], open["ehi"], open["epre"] = []string{}, []int{}, []int{}, []string{}
 	}
